@@ -4,3 +4,4 @@ CONSTANTS
   MEMCAP = 1048576
 VIEW view
 INVARIANT InitReport
+INVARIANT CallsReport
